@@ -53,6 +53,7 @@ package balanced
 import (
 	"errors"
 
+	dag "github.com/ipfs/boxo/ipld/merkledag"
 	ft "github.com/ipfs/boxo/ipld/unixfs"
 	h "github.com/ipfs/boxo/ipld/unixfs/importer/helpers"
 	ipld "github.com/ipfs/go-ipld-format"
@@ -146,6 +147,19 @@ func Layout(db *h.DagBuilderHelper) (ipld.Node, error) {
 	}
 
 	if db.HasFileAttributes() {
+		if _, ok := root.(*dag.ProtoNode); !ok {
+			// A file that fits in a single raw leaf has no UnixFS node that
+			// could carry mode and modification time: give it one.
+			newRoot := db.NewFSNodeOverDag(ft.TFile)
+			err = newRoot.AddChild(root, uint64(len(root.RawData())), db)
+			if err != nil {
+				return nil, err
+			}
+			root, err = newRoot.Commit()
+			if err != nil {
+				return nil, err
+			}
+		}
 		err = db.SetFileAttributes(root)
 		if err != nil {
 			return nil, err
